@@ -453,7 +453,7 @@ func runT(c TCase) error {
 }
 
 func TestTunnelsAndErrors(t *testing.T) {
-	fx.Run(t, fx.Spec[TCase]{Prop: "C02", Name: "upgrade_connect_errors", Quick: 96, Thorough: 1200, Gen: genT, Run: runT, Retry: true, ShrinkTime: "40s",
+	fx.Run(t, fx.Spec[TCase]{Prop: "C02", Name: "upgrade_connect_errors", Journal: true, Quick: 96, Thorough: 1200, Gen: genT, Run: runT, Retry: true, ShrinkTime: "40s",
 		Class: func(c TCase) fx.Class {
 			return fx.Class{NonTrivial: c.Up.Len+c.Down.Len > 0 || c.Kind == "unreachable" || c.Kind == "silent" || c.Kind == "hold", Fingerprint: fmt.Sprintf("%+v", c), Labels: []string{"kind=" + c.Kind}}
 		}})
